@@ -723,6 +723,7 @@ func walk(r *ev.Run, f family, m *sess.Model, part int, seed int64, st *stats) {
 					return
 				}
 				if !ok {
+					pl.Avoid(t)
 					break
 				}
 				cur = t.PostKey
